@@ -323,7 +323,14 @@ def rstatus_http_status_table(ctx):
     http_status_table(ctx, "C07.STATUS", ('too_large', 'internal_error', 'malformed'))
 
 
-RULES = [r1_ws_frame_limit, r2_http_limit, r3_plumbing, r4_limit_before_read, r5_ws_oversize_arm, r6_size_gates, r7_server_builder_fields, rsib_entry_points_agree, rcfg_config_verbatim, rstatus_http_status_table]
+
+def rin_inbound_limits_from_request_limit(ctx):
+    """what the WebSocket side may receive is bounded by max_request_body_size only"""
+    from .common import soketto_inbound_limits
+    soketto_inbound_limits(ctx, "C07.INBOUND")
+
+
+RULES = [r1_ws_frame_limit, r2_http_limit, r3_plumbing, r4_limit_before_read, r5_ws_oversize_arm, r6_size_gates, r7_server_builder_fields, rsib_entry_points_agree, rcfg_config_verbatim, rstatus_http_status_table, rin_inbound_limits_from_request_limit]
 
 LEVEL_TEXT = (
     "Structural necessary conditions decided exactly from the type-checked program: which configuration field every "
